@@ -4,8 +4,22 @@ import ALV.Spec.C12
 import ALV.Model.C12Call
 import ALV.Spec.C12Call
 import ALV.Spec.C04
+import ALV.Gen.C12Src
 namespace ALV.Driver.C12
 open ALV ALV.J ALV.C12
+
+/-- the source's `cexp(s·1j · n · f)` when a frequency travels as its point `w = exp(-1j·f)`: `w^(-s·n)`.
+    With it the driver also runs the definitions REGENERATED from the source (`ALV.Gen.C12`, payload
+    field `gen`), which the harness compares with the impl like the model: a cross-check of the translator. -/
+def cisG : CExp GRat GRat := ⟨fun s n w => zpw w (-s * (n : Int))⟩
+
+/-- `ZFilter(b, a).freq_response` through the regenerated body -/
+def genResp (b a : List GRat) (w : GRat) : Resp GRat :=
+  match mkFilter b a with
+  | none => .valueError
+  | some f => match ALV.Gen.C12.LinearFilter_freq_response cisG f w with
+    | none => .nan
+    | some v => .val v
 
 /-- a Gaussian rational travels as `[re, im]` (or a bare rational) -/
 def getG (j : Json) : Except String GRat :=
@@ -174,6 +188,7 @@ def handle (entry : String) (j : Json) : Except String Json := do
     let ws ← getList getG (← field j "ws")
     pure <| Json.mkObj [
       ("model", arr respToJson (elementwise (respOfFilter b a) ws)),
+      ("gen", arr respToJson (elementwise (genResp b a) ws)),
       ("spec", arr respToJson (elementwise (respSpec b a) ws)),
       -- the dict form of the specification on the dict {k: c_k} of the same lists (Props.C12.terms_spec_eq_dense_spec)
       ("spec_terms", arr respToJson (elementwise (respSpecTerms (denseTerms 0 b) (denseTerms 0 a)) ws)),
@@ -208,8 +223,12 @@ def handle (entry : String) (j : Json) : Except String Json := do
     let (m, s) := if kind = "cascade"
       then (elementwise (cascadeResp bank) ws, elementwise (cascadeSpec bank) ws)
       else (elementwise (parallelResp bank) ws, elementwise (parallelSpec bank) ws)
+    let member := fun (f : List GRat × List GRat) (w : GRat) => genResp f.1 f.2 w
+    let g := if kind = "cascade"
+      then elementwise (ALV.Gen.C12.CascadeFilter_freq_response member bank) ws
+      else elementwise (ALV.Gen.C12.ParallelFilter_freq_response member bank) ws
     pure <| Json.mkObj [
-      ("model", arr respToJson m), ("spec", arr respToJson s),
+      ("model", arr respToJson m), ("spec", arr respToJson s), ("gen", arr respToJson g),
       ("ctor_model", Json.bool (bank.any fun f => (mkFilter f.1 f.2).isNone)),
       ("ctor_spec", Json.bool (bank.any fun f => f.2.all (fun c => decide (c = 0)))),
       ("dens", arr (fun w => arr (fun (f : List GRat × List GRat) => gToJson (evalDirect f.2 w)) bank) ws)]
@@ -231,7 +250,7 @@ def handle (entry : String) (j : Json) : Except String Json := do
     let enc : Option (List GRat) → Json
       | none => Json.mkObj [("err", Json.str "ZeroDivisionError")]
       | some l => arr gToJson l
-    pure <| Json.mkObj [("model", enc m), ("spec", enc s)]
+    pure <| Json.mkObj [("model", enc m), ("spec", enc s), ("gen", enc (ALV.Gen.C12.dft cisG blk ws norm))]
   | "fir" =>
     -- time domain: FIR filter b on the input xs; optional steady-state check data
     let b ← getList getG (← field j "b")
